@@ -24,6 +24,7 @@ import (
 	"fmt"
 	"math"
 	"math/big"
+	"math/bits"
 	"reflect"
 	"regexp"
 	"strings"
@@ -192,8 +193,14 @@ func ByteCountToElementCount(elementBitWidth int, byteCount uint64) uint64 {
 }
 
 func ElementCountToByteCount(elementBitWidth int, elementCount uint64) uint64 {
-	byteCount := (elementCount * uint64(elementBitWidth)) / 8
-	if elementBitWidth == 1 && elementCount&7 != 0 {
+	bitCountHigh, bitCountLow := bits.Mul64(elementCount, uint64(elementBitWidth))
+	if bitCountHigh >= 8 {
+		// More bytes than a uint64 can count. Saturate rather than wrap around to
+		// a small number that a few bytes (or none) would seem to satisfy.
+		return math.MaxUint64
+	}
+	byteCount := bitCountHigh<<61 | bitCountLow>>3
+	if bitCountLow&7 != 0 {
 		byteCount++
 	}
 	return byteCount
